@@ -295,6 +295,9 @@ func genC13(t *rapid.T, tier Tier) C13Case {
 			k := rapid.IntRange(1, 5).Draw(t, "batch")
 			if rapid.IntRange(0, 9).Draw(t, "bulk?") == 0 {
 				k = rapid.IntRange(9, 40).Draw(t, "bulk") // IsNesting scans, the filter and the allocator see long contents too
+				if rapid.IntRange(0, 2).Draw(t, "bigbulk?") == 0 {
+					k = rapid.IntRange(60, 300).Draw(t, "bigbulk")
+				}
 			}
 			for j := 0; j < k; j++ {
 				o.Vals = append(o.Vals, rapid.SampledFrom(c13ValClasses).Draw(t, "class"))
